@@ -2,7 +2,7 @@
 //
 // P\t<hex of the CDDL text>  ->  one line:
 // (D\t<hex>\t<i> prints the Debug rendering of the i-th walked node; used by --replay only)
-//   REJECT                         the document is not accepted by cddl_from_str(text, true)
+//   REJECT [parser-panic]          the document is not accepted by cddl_from_str(text, true)
 //   BUILDERR <msg>                 ParentVisitor::new returned Err
 //   OK\t<tree>\t<answers>\t<ptr>\t<flags>
 //     tree    = the AST walked by THIS driver (by the AST types, not by the visitor), in preorder, one token per node:
@@ -360,9 +360,11 @@ fn typed<'a>(
 }
 
 fn run(text: &str) -> String {
-  let cddl = match cddl::cddl_from_str(text, true) {
-    Ok(c) => c,
-    Err(_) => return "REJECT".to_string(),
+  // a panic inside the parser is not C20's business (the document is not "accepted"): reported as a rejection
+  let cddl = match std::panic::catch_unwind(|| cddl::cddl_from_str(text, true)) {
+    Ok(Ok(c)) => c,
+    Ok(Err(_)) => return "REJECT".to_string(),
+    Err(_) => return "REJECT parser-panic".to_string(),
   };
   let pv = match ParentVisitor::new(&cddl) {
     Ok(p) => p,
